@@ -732,23 +732,42 @@ def run_build(tape, ctx):
 # ---------------------------------------------------------------------------
 # history batch
 # ---------------------------------------------------------------------------
+_VERSIONS = [
+    "template<T> class VersionedQZ {\n  VersionedQZ();\n  double get(const T& value) const;\n};\n"
+    "typedef VersionedQZ<double> VersionedOfDoubleQZ;\n"
+    "class PlainVersionedQZ {\n  PlainVersionedQZ();\n  int first() const;\n};\n",
+    "template<T> class VersionedQZ {\n  VersionedQZ(int n);\n  void set(const T& value);\n  size_t size() const;\n};\n"
+    "typedef VersionedQZ<double> VersionedOfDoubleQZ;\n"
+    "class PlainVersionedQZ {\n  PlainVersionedQZ();\n  int second(double x) const;\n};\n",
+]
+
+
 def gen_history(tape):
     h = {"inputs": {}, "predirs": [R + "/src", R + "/build"], "ops": [], "wrappers": []}
     src = R + "/src"
     ntext = 2 + tape.small(2, "n-texts", p=0.5)
     models = []
     texts = []
+    # version skew: the first and the last text (and the two MATLAB inputs) are an earlier and a later version
+    # of one interface -- the same template, typedef and class NAMES with other members -- as when a long-lived
+    # process wraps a file again after it was edited
+    skew = tape.bool(0.6, "version-skew")
+    h["skew"] = skew
     for k in range(ntext):
         m, _, _ = G.generate(tape, "pybind", tag=_tag(k), max_decls=4)
         n_ovl = _add_overload_pairs(m, tape)
         lex, _ = m.lexemes()
         text = G.render(lex, tape)
+        if skew and k in (0, ntext - 1):
+            text = _VERSIONS[0 if k == 0 else 1] + text
         p = "%s/file%d.i" % (src, k)
         h["inputs"][p] = text.encode("utf-8")
         models.append(m)
         texts.append((p, text, n_ovl))
     mm, mlex, _ = G.generate(tape, "matlab", tag=_tag(9), max_decls=4)
-    h["inputs"][src + "/tool.i"] = G.render(mlex, tape).encode("utf-8")
+    h["inputs"][src + "/tool.i"] = ((_VERSIONS[0] if skew else "") + G.render(mlex, tape)).encode("utf-8")
+    mm2, mlex2, _ = G.generate(tape, "matlab", tag=_tag(9), max_decls=3)
+    h["inputs"][src + "/tool2.i"] = ((_VERSIONS[1] if skew else "") + G.render(mlex2, tape)).encode("utf-8")
     # the XML store exists in two editions (as after re-running Doxygen) and can go missing
     h["xml_variants"] = [_xml_for(models, tape), _xml_for(models, tape, salt=" (2nd edition)")]
     for fn, data in h["xml_variants"][0].items():
@@ -771,7 +790,8 @@ def gen_history(tape):
             h["ops"].append({"op": "new", "w": nw - 1})
             continue
         if kind == "matlab":
-            h["ops"].append({"op": "matlab", "out": "%s/build/tbx%d" % (R, i), "boost": tape.bool(0.2, "boost")})
+            h["ops"].append({"op": "matlab", "out": "%s/build/tbx%d" % (R, i), "boost": tape.bool(0.2, "boost"),
+                             "src": "tool2.i" if tape.bool(0.4, "matlab-later-version") else "tool.i"})
             continue
         if kind == "xml":
             # the documentation store changes behind the same path: other edition / missing / back
@@ -816,7 +836,7 @@ def _hist_apply(h, wrappers, op):
         if kind == "matlab":
             mw = MatlabWrapper(module_name="tool", top_module_namespace=[""], ignore_classes=[""],
                                use_boost_serialization=op["boost"])
-            mw.wrap([R + "/src/tool.i"], path=op["out"])
+            mw.wrap([R + "/src/" + op.get("src", "tool.i")], path=op["out"])
             ret = None
         else:
             wr = wrappers[op["w"]]
